@@ -6,6 +6,8 @@
 //!          the program is parsed against (so they are constants to the optimizer) and run in
 //! Output (stdout): <id> TAB <status> TAB <hex(utf8 debug rendering or message)>
 //!   status = ok | parse_error | exec_error | panic
+//!   for errors the text is `<VariantName>|<Display text>` (the variant name of the error enum, so that
+//!   re-wording a message is not mistaken for a change of behaviour)
 use simplesl::{Code, Interpreter, variable::Variable};
 use std::io::{BufRead, Write};
 use std::panic::{AssertUnwindSafe, catch_unwind};
@@ -18,6 +20,12 @@ fn unhex(s: &str) -> String {
 }
 fn hex(s: &str) -> String {
     s.bytes().map(|b| format!("{b:02x}")).collect()
+}
+
+fn kind<E: std::fmt::Debug + std::fmt::Display>(e: &E) -> String {
+    let d = format!("{e:?}");
+    let name: String = d.chars().take_while(|c| c.is_alphanumeric() || *c == '_').collect();
+    format!("{name}|{e}")
 }
 
 fn main() {
@@ -63,12 +71,12 @@ fn main() {
         let res = catch_unwind(AssertUnwindSafe(|| {
             let interpreter = mk(mode);
             match Code::parse(&interpreter, &prog) {
-                Err(e) => ("parse_error", format!("{e}")),
+                Err(e) => ("parse_error", kind(&e)),
                 Ok(code) => {
                     let mut run = mk(mode);
                     match code.exec_unscoped(&mut run) {
                         Ok(v) => ("ok", format!("{v:?}")),
-                        Err(e) => ("exec_error", format!("{e}")),
+                        Err(e) => ("exec_error", kind(&e)),
                     }
                 }
             }
